@@ -578,6 +578,10 @@ def align_variable_names_with_convention(
         | constants.BUILTIN_FUNCTIONS
         | constants.PYTHON_KEYWORDS
     )
+    # A name in a global or nonlocal statement is the same variable in several scopes
+    shared_names = {
+        name for node in core.walk(ast_tree, (ast.Global, ast.Nonlocal)) for name in node.names
+    }
     renamings = {
         node: list(substitutes)[0]
         for node, substitutes in renamings.items()
@@ -585,6 +589,7 @@ def align_variable_names_with_convention(
         and blacklisted_names.isdisjoint(substitutes)
         # Some of the references to a name that shadows a builtin may be to the builtin
         and getattr(node, "id", getattr(node, "name", None)) not in constants.BUILTIN_FUNCTIONS
+        and getattr(node, "id", getattr(node, "name", None)) not in shared_names
     }
     substitute_node_renamings = collections.defaultdict(set)
     for node, substitute in renamings.items():
